@@ -354,8 +354,8 @@ static void witness_case(Rng&, uint64_t i)
 static void setup()
 {
 	add_generator("witness", 7, witness_case);
-	add_generator("roots", ctx().count(1000000, 20000000), root_case);
-	add_generator("end_zero", ctx().count(10000, 100000), end_zero_case);
-	add_generator("reject", ctx().count(1500, 10000), reject_case);
+	add_generator("roots", ctx().count(1000000, 160000000), root_case);
+	add_generator("end_zero", ctx().count(10000, 800000), end_zero_case);
+	add_generator("reject", ctx().count(1500, 80000), reject_case);
 }
 VERIF_MAIN("C02", setup)
